@@ -50,7 +50,9 @@ ENCODED = ["ReservedHeapSection::push_pstr_segment", "scan_slice_to_str",
            "scan_slice_to_str_from_start", "pstr_sentinel_length", "Heap::pstr_tail_idx",
            "Heap::compute_pstr_size", "Heap::scan_slice_to_str", "Heap::slice_to_str",
            "Heap::copy_pstr_within", "Heap::last_str_char_and_tail",
-           "heap::compare_pstr_slices (tail-index construction, engine M)"]
+           "heap::compare_pstr_slices (tail-index construction, mismatch window; engine M)",
+           "ParallelHeapIter::next (strings against lists under compare/3: arm order and sides; engine M, "
+           "shared with C13)"]
 ASSUME = ["string lengths are compile-time constants per harness; bytes are symbolic non-NUL ASCII",
           "one string per harness, written at cell 0..2 of a fresh heap"]
 BOUNDS = ("lengths {1,7,8} quick, +{2,6,9,15,16,17} thorough; index identities for every length "
@@ -61,8 +63,21 @@ OUTSIDE = ("allocate_pstr/allocate_cstr/push_pstr as a whole (str::find defeats 
 
 
 def mpost(results):
-    from vlib.mirsmt import c20
-    return c20.run()
+    from vlib.mirsmt import c20, c13
+    from vlib.common import EXIT_VIOLATION, EXIT_INCONCLUSIVE
+    r1 = c20.run()
+    # strings against lists under compare/3: the list x string arms of ParallelHeapIter (shared with C13)
+    r2 = c13.run(prop="C20")
+    out = dict(r1)
+    out["evaluations"] = r1.get("evaluations", 0) + r2.get("evaluations", 0)
+    out["distinct_nontrivial"] = r1.get("distinct_nontrivial", 0) + r2.get("distinct_nontrivial", 0)
+    out["samples"] = r1.get("samples", []) + r2.get("samples", [])
+    out["mirsmt_regions"] = r1.get("mirsmt_regions", []) + r2.get("mirsmt_regions", [])
+    if "mirsmt_violations" in r2:
+        out.setdefault("mirsmt_violations", []).extend(r2["mirsmt_violations"])
+    ex = [r.get("exit", 0) for r in (r1, r2)]
+    out["exit"] = EXIT_VIOLATION if EXIT_VIOLATION in ex else (EXIT_INCONCLUSIVE if EXIT_INCONCLUSIVE in ex else 0)
+    return out
 
 
 def run(tier):
